@@ -80,8 +80,34 @@ def r1(ctx, sch):
     fs = FACTS(ev[:i])
     if ('self._resolution', True) in fs:
       n_q += 1
-      ok = is_ceil_multiple(val, d, 'self._resolution')
-      ctx.ob('C10.R1', sch, 'deadline = ceil(deadline / resolution) * resolution', ok, 'the entry deadline is %s' % U(val), why)
+      R = 'self._resolution'
+      # float arithmetic: ceil(d / r) * r can land one ulp below d (the division rounds to a whole number);
+      # the quantised value has to be compared with the requested deadline and bumped by one quantum if below
+      guard = None
+      for j in range(i):
+        e = ev[j]
+        if e.kind != 'cond' or not isinstance(e.node, ast.Compare) or len(e.node.ops) != 1:
+          continue
+        envj = sym_env(ev, j)
+        L, Rr = sym_resolve(e.node.left, envj), sym_resolve(e.node.comparators[0], envj)
+        op = type(e.node.ops[0]).__name__
+        if is_ceil_multiple(Rr, d, R) and U(L) == d:
+          L, Rr = Rr, L
+          op = {'Lt': 'Gt', 'Gt': 'Lt', 'LtE': 'GtE', 'GtE': 'LtE'}.get(op, op)
+        if not (is_ceil_multiple(L, d, R) and U(Rr) == d):
+          continue
+        if op == 'Lt':
+          guard = 'below' if e.info else 'ok'
+        elif op == 'GtE':
+          guard = 'ok' if e.info else 'below'
+      bumped = isinstance(val, ast.BinOp) and isinstance(val.op, ast.Add) and (
+        (is_ceil_multiple(val.left, d, R) and U(val.right) == R) or (is_ceil_multiple(val.right, d, R) and U(val.left) == R))
+      ok = (guard == 'ok' and is_ceil_multiple(val, d, R)) or (guard == 'below' and bumped)
+      what = 'the entry deadline is %s' % U(val)
+      if guard is None and is_ceil_multiple(val, d, R):
+        what = ('the quantised deadline %s is never compared with the requested one: in floating point ceil(d / r) * r can be below d '
+                '(e.g. d = 0.21000000000000002, r = 0.01 gives 0.21)' % U(val))
+      ctx.ob('C10.R1', sch, 'deadline = ceil(deadline / resolution) * resolution, never below the requested deadline', ok, what, why)
     elif ('self._resolution', False) in fs:
       ctx.ob('C10.R1', sch, 'resolution 0: the deadline is used unchanged', U(val) == d, 'the entry deadline is %s' % U(val), 'resolution 0 means no quantisation', nontrivial=False)
     else:
@@ -283,6 +309,28 @@ def r4(ctx, tq, sch, wk):
       ctx.ob('C10.R4', wk, 'the worker waits exactly for the remaining time of the peeked head', ok_arg, 'waits for %s' % waited_on, why)
       ctx.ob('C10.R4', wk, 'pop-and-run only when the head is due or its wait timed out', (expired and not idx['twait']) or timed_out,
              'run path: expired=%s, waits=%s, wait timed out=%s' % (expired, bool(idx['twait']), timed_out), why)
+      # never early on the queue's own clock: the last thing that can take time before the pop is a yield
+      # (the timed wait, measured on the wall clock); after it the queue clock must be read again and
+      # compared with the peeked deadline
+      popi = idx['pop'][0] if idx['pop'] else len(ev)
+      ys = [i for i, e in enumerate(ev[:popi]) if e.kind == 'call' and is_yield_call(e.node)]
+      start = ys[-1] + 1 if ys else 0
+      due = False
+      A = at1
+      for j in range(start, popi):
+        e = ev[j]
+        if e.kind != 'cond':
+          continue
+        t_ = U(sym_resolve(e.node, sym_env(ev[start:], j - start))).replace(' ', '')
+        now = 'self._time_source()'
+        if bool(e.info) is False and t_ in ('%s<%s' % (now, A), '%s>%s' % (A, now), '%s-%s>0' % (A, now), '0<%s-%s' % (A, now)):
+          due = True
+        if bool(e.info) is True and t_ in ('%s>=%s' % (now, A), '%s<=%s' % (A, now), '%s-%s<=0' % (A, now), '0>=%s-%s' % (A, now)):
+          due = True
+      ctx.ob('C10.R4', wk, 'the queue clock is read after the last wait and has reached the peeked deadline', due,
+             'run path pops after a %s without comparing a fresh clock reading with the deadline' % ('timed wait' if idx['twait'] else 'yield'),
+             'the wait is measured on the wall clock; the queue\'s own clock (time_source, e.g. the 1 s tick clock of LOW_RESOLUTION_TIMER_QUEUE) '
+             'may not have reached the deadline when the wait times out: the action would start before T on the queue\'s clock')
       ctx.ob('C10.R4', wk, 'peeked head was not cancelled', (canc1, False) in fs,
              'run path does not test the peeked cancelled flag', why, nontrivial=False)
     elif idx['pop']:
